@@ -15,12 +15,12 @@ C03  `session_total`, `session_total_run` (no exception leaves `handle_packet` f
 C02  `key_epoch_tracks_sender`, `one_rtt_exact`, `handshake_levels_exact`, `cid_learning_*`, `direction_by_cid`,
      `new_connection_id_direction`, `retry_resets`.
 -/
-import TLX.Lemmas.QuicSession
+import TLX.Lemmas.QuicSessionExact
 import TLX.Quic.SessionToy
 set_option linter.unusedSimpArgs false
 set_option linter.unusedVariables false
 namespace TLX.Props.C02Session
-open TLX TLX.Quic TLX.Cipher TLX.Quic.Session TLX.Lemmas.QuicSession
+open TLX TLX.Quic TLX.Cipher TLX.Quic.Session TLX.Lemmas.QuicSession TLX.Spec.QuicSender TLX.Spec.QuicFrames
 
 variable {σ : Type} (P : Params σ)
 
@@ -113,6 +113,7 @@ theorem decryptPacket_out_rejected (hbad : AeadRejectsAll P) (s : St σ) (p : Pk
   · obtain ⟨_, _, _, _, _, rfl⟩ := h1; rfl
   · rename_i s1 _
     have e1 : s1.out = s.out := by obtain ⟨_, _, _, _, _, rfl⟩ := h1; rfl
+    unfold decryptRest
     have h2 := getFullPn_frame s1 p
     split <;> (rename_i heq2; rw [heq2] at h2)
     · obtain ⟨_, _, rfl⟩ := h2; exact e1
@@ -297,5 +298,176 @@ theorem retry_resets (s : St σ) (p : Pkt) (hp : p.ptype = .retry) (dcid : Bytes
       unfold latchVersion; split <;> rfl
     simp only [hn, Option.isNone_none, if_true, setInitialDecryptor]
     split <;> (rename_i heq; simp [heq])
+
+/-! ### C02: key epochs follow the sender through any conformant key-update history -/
+
+/-- along the run, the decryptor the model picks for each packet is the sender's generation of that packet
+    (`selectDecryptor` returning `.ok` also says: no KeyError, no IndexError on the "Application" list) -/
+def Tracks (sel : SuiteSel) (v : Version) (k0 : AppKeys) : St σ → List (Pkt × Nat) → Prop
+  | _, [] => True
+  | s, (p, g) :: rest =>
+    (selectDecryptor P s p).2 = .ok (some (genDec P sel v k0 g)) ∧ Tracks sel v k0 (stepPkt P s p).st rest
+
+/-- the (direction, generation) sequence of a packet list -/
+def history (l : List (Pkt × Nat)) : List (Bool × Nat) := l.map fun x => (x.1.isServer, x.2)
+
+/-- the generation each direction has shown at the end -/
+def finalGens : Nat → Nat → List (Bool × Nat) → Nat × Nat
+  | gc, gs, [] => (gc, gs)
+  | gc, gs, (srv, g) :: rest => finalGens (if srv then gc else g) (if srv then g else gs) rest
+
+theorem step_short_rtt1 (s : St σ) (p : Pkt) (ht : p.ptype = .rtt1) :
+    (stepPkt P s p).st = (decryptPacket P s p).1 ∧ (stepPkt P s p).caught = (decryptPacket P s p).2 ∧
+    (stepPkt P s p).escaped = none := by
+  simp [stepPkt, afterDecrypt, ht]
+
+/-- For EVERY conformant 1-RTT history — any number of key updates, initiated by either side, the two directions
+    interleaved in any way, whatever the packets contain otherwise (they may even be undecryptable) — the decryptor
+    the session selects for each packet is the sender's key generation of that packet, the "Application" list always
+    has the entry (no IndexError), and the epoch relation holds again at the end.
+    `TlsQuiet`: post-handshake CRYPTO data in 1-RTT packets does not make the TLS parser signal new handshake data
+    (otherwise `set_tls_decryptors` would reset the generation list). -/
+theorem key_epoch_tracks_sender (sel : SuiteSel) (v : Version) (k0 : AppKeys) (hq : TlsQuiet P .rtt1)
+    (l : List (Pkt × Nat))
+    (hshape : ∀ x ∈ l, x.1.htype = .short ∧ x.1.ptype = .rtt1 ∧ x.1.keyPhase = some (x.2 % 2))
+    (s : St σ) (gc gs : Nat) (hinv : EpochInv P sel v k0 s gc gs) (hflag : P.tlsNewData s.tls = false)
+    (hconf : KeyUpdateConformant gc gs (history l)) :
+    Tracks P sel v k0 s l ∧ escapes P s (l.map Prod.fst) = none ∧
+    EpochInv P sel v k0 (runPkts P s (l.map Prod.fst)) (finalGens gc gs (history l)).1 (finalGens gc gs (history l)).2 := by
+  induction l generalizing s gc gs with
+  | nil => exact ⟨trivial, rfl, hinv⟩
+  | cons x l ih =>
+    obtain ⟨p, g⟩ := x
+    obtain ⟨hh, ht, hk⟩ := hshape (p, g) (List.mem_cons_self ..)
+    simp only [history, List.map_cons, KeyUpdateConformant] at hconf
+    obtain ⟨hlo, hhi, hrest⟩ := hconf
+    obtain ⟨s', h1, h2, h3⟩ := selectDecryptor_tracks P sel v k0 s gc gs hinv p g hh ht hk hlo hhi
+    obtain ⟨e1, _, e3⟩ := step_short_rtt1 P s p ht
+    have hflag' : P.tlsNewData s'.tls = false := by obtain ⟨_, _, _, _, _, rfl⟩ := h3; exact hflag
+    have hdp : (decryptPacket P s p).1 = (decryptRest P s' p (some (genDec P sel v k0 g))).1 := by
+      simp [decryptPacket, h1]
+    obtain ⟨s1, f1, f2⟩ := decryptRest_quiet P p (by rw [ht]; exact hq) s' (some (genDec P sel v k0 g)) hflag'
+    have hinv' := (h2.of_framePn P f1).of_frameQ P f2
+    have hfl' := f2.flag
+    rw [← hdp, ← e1] at hinv' hfl'
+    obtain ⟨i1, i2, i3⟩ := ih (fun y hy => hshape y (List.mem_cons_of_mem _ hy)) _ _ _ hinv' hfl' hrest
+    refine ⟨⟨by rw [h1], i1⟩, ?_, ?_⟩
+    · simp only [List.map_cons, escapes, e3]; exact i2
+    · simp only [List.map_cons, runPkts, e3, history, finalGens]; exact i3
+
+/-! ### C02: 1-RTT packets are exported exactly -/
+
+/-- the sender's generation-`g` key of each direction is one the AEAD accepts, with an IV of at least 8 bytes
+    (RFC 9001: 12) -/
+def KeysWf (sel : SuiteSel) (v : Version) (k0 : AppKeys) : Prop :=
+  ∀ srv g, AeadOk sel.alg (genDir (P.keyUpdate sel v) k0 srv g).key.length
+      (genDir (P.keyUpdate sel v) k0 srv g).iv.length 16 ∧ 8 ≤ (genDir (P.keyUpdate sel v) k0 srv g).iv.length
+
+/-- the refinement relation for the 1-RTT phase: key epochs (`EpochInv`), the largest packet number captured per
+    direction in the application space, and a TLS parser with no pending new data -/
+structure Rel1 (sel : SuiteSel) (v : Version) (k0 : AppKeys) (s : St σ) (gc gs lc ls : Nat) : Prop where
+  inv : EpochInv P sel v k0 s gc gs
+  flag : P.tlsNewData s.tls = false
+  pc : s.pnClient.app = lc
+  ps : s.pnServer.app = ls
+
+/-- what RFC 9000/9001 demand of a sequence of 1-RTT packets in capture order: key generations conformant
+    (`KeyUpdateConformant`, inlined), each packet number truncated within the window of the largest number captured
+    so far in its direction (any gaps, any of the lengths 1–4 the window admits), frames well-formed -/
+def SendOk1 : (gc gs lc ls : Nat) → List SPkt → Prop
+  | _, _, _, _, [] => True
+  | gc, gs, lc, ls, x :: rest =>
+    x.level = .oneRtt ∧ (if x.srv then gs else gc) ≤ x.gen ∧ x.gen ≤ (if x.srv then gs else gc) + 1 ∧
+    PnLenOk (if x.srv then ls else lc) x.pn x.pnLen ∧ WellFormedSeq x.frames ∧
+    SendOk1 (if x.srv then gc else x.gen) (if x.srv then x.gen else gs)
+      (if x.srv then lc else max lc x.pn) (if x.srv then max ls x.pn else ls) rest
+
+/-- the 1-RTT packet as captured: protected with the sender's key of its direction and generation -/
+def emit1 (L : SealLaws P.prims) (sel : SuiteSel) (v : Version) (k0 : AppKeys) (x : SPkt) : Pkt :=
+  emit L.aeadSeal sel.alg (genDir (P.keyUpdate sel v) k0 x.srv x.gen) x
+
+/-- what has to be in `output_buffer` for one packet: its STREAM and CRYPTO frames in order, each with the capture
+    time and direction of the packet -/
+def expectedOf (pt : PType) (x : SPkt) : List Out :=
+  (exported x.frames).map fun f => ⟨.parsed f.toParsed, x.ts, x.srv, pt⟩
+
+theorem step_one_rtt (L : SealLaws P.prims) (sel : SuiteSel) (v : Version) (k0 : AppKeys)
+    (hq : TlsQuiet P .rtt1) (hn : TlsNoRaise P .rtt1) (hk : KeysWf P sel v k0)
+    (x : SPkt) (s : St σ) (gc gs lc ls : Nat) (hrel : Rel1 P sel v k0 s gc gs lc ls)
+    (hlv : x.level = .oneRtt) (hlo : (if x.srv then gs else gc) ≤ x.gen) (hhi : x.gen ≤ (if x.srv then gs else gc) + 1)
+    (hpn : PnLenOk (if x.srv then ls else lc) x.pn x.pnLen) (hwf : WellFormedSeq x.frames) :
+    (stepPkt P s (emit1 P L sel v k0 x)).caught = none ∧ (stepPkt P s (emit1 P L sel v k0 x)).escaped = none ∧
+    (stepPkt P s (emit1 P L sel v k0 x)).st.out = s.out ++ expectedOf .rtt1 x ∧
+    Rel1 P sel v k0 (stepPkt P s (emit1 P L sel v k0 x)).st (if x.srv then gc else x.gen) (if x.srv then x.gen else gs)
+      (if x.srv then lc else max lc x.pn) (if x.srv then max ls x.pn else ls) := by
+  obtain ⟨hinv, hflag, hpc, hps⟩ := hrel
+  generalize hp : emit1 P L sel v k0 x = p
+  have hh : p.htype = .short := by subst hp; simp [emit1, emit, hlv]
+  have ht : p.ptype = .rtt1 := by subst hp; simp [emit1, emit, hlv]
+  have hkp : p.keyPhase = some (x.gen % 2) := by subst hp; simp [emit1, emit, hlv]
+  have hsrv : p.isServer = x.srv := by subst hp; simp [emit1, emit, hlv]
+  have hts : p.ts = x.ts := by subst hp; simp [emit1, emit, hlv]
+  have hpnb : p.pn = some (pnBytes x.pnLen x.pn) := by subst hp; simp [emit1, emit, hlv]
+  have hpl : p.payload = some (L.aeadSeal sel.alg (genDir (P.keyUpdate sel v) k0 x.srv x.gen).key
+      (nonce (genDir (P.keyUpdate sel v) k0 x.srv x.gen).iv x.pn) (header x) 16 (encodeAll x.frames)) := by
+    subst hp; simp [emit1, emit, hlv, protectedPayload]
+  have haad : assocData p = .ok (header x) := by subst hp; exact assocData_emit _ _ _ _
+  obtain ⟨s', h1, h2, h3⟩ := selectDecryptor_tracks P sel v k0 s gc gs hinv p x.gen hh ht hkp
+    (by rw [hsrv]; exact hlo) (by rw [hsrv]; exact hhi)
+  obtain ⟨e1, e2, e3⟩ := step_short_rtt1 P s p ht
+  have hdp : decryptPacket P s p = decryptRest P s' p (some (genDec P sel v k0 x.gen)) := by
+    simp [decryptPacket, h1]
+  have hs' : s'.tls = s.tls ∧ s'.pnClient = s.pnClient ∧ s'.pnServer = s.pnServer ∧ s'.out = s.out := by
+    obtain ⟨_, _, _, _, _, rfl⟩ := h3; exact ⟨rfl, rfl, rfl, rfl⟩
+  obtain ⟨t1, t2, t3, t4⟩ := hs'
+  have hdir : (if p.isServer then (genDec P sel v k0 x.gen).server else some (genDec P sel v k0 x.gen).client)
+      = some (genDir (P.keyUpdate sel v) k0 x.srv x.gen) := by
+    rw [hsrv]; cases x.srv <;> simp [genDec, AppKeys.toDec, genDir]
+  have hlarge : pnLargest s' p.isServer .app = (if x.srv then ls else lc) := by
+    rw [hsrv]; cases x.srv <;> simp [pnLargest, PnTab.get, t2, t3, hpc, hps]
+  have hrest := decryptRest_emitted P L s' p (genDec P sel v k0 x.gen) (genDir (P.keyUpdate sel v) k0 x.srv x.gen)
+    .app _ x.pn x.pnLen (header x) x.frames hdir (by rw [ht]; rfl) (by simp [hasPnAttr, hh]) hlarge hpnb hpn haad
+    (by rw [hpl]; rfl) hwf (hk x.srv x.gen).1 (hk x.srv x.gen).2
+  rw [hdp, hrest] at e1 e2
+  generalize hs2 : pnStore s' p.isServer Space.app (max (if x.srv then ls else lc) x.pn) = s2 at e1 e2
+  have f2 : FramePn s' s2 := by subst hs2; unfold pnStore; split <;> exact ⟨_, _, rfl⟩
+  have hfl2 : P.tlsNewData s2.tls = false := by obtain ⟨_, _, rfl⟩ := f2; rw [t1]; exact hflag
+  have hout2 : s2.out = s.out := by obtain ⟨_, _, rfl⟩ := f2; exact t4
+  obtain ⟨q1, q2⟩ := handleFrames_quiet P p (by rw [ht]; exact hq) ((normalize x.frames).map QFrame.toParsed) s2 hfl2
+  obtain ⟨q3, q4⟩ := q2 (by rw [ht]; exact hn)
+  refine ⟨by rw [e2]; exact q3, e3, ?_, ?_⟩
+  · rw [e1, q4, hout2, filterMap_export]
+    simp [expectedOf, exported_eq, mkOut, hts, hsrv, ht]
+  · rw [e1]
+    have hinvF := (h2.of_framePn P f2).of_frameQ P q1
+    rw [hsrv] at hinvF
+    obtain ⟨cc, sc, t, o, heq, hflagF⟩ := q1
+    refine ⟨hinvF, by rw [heq]; exact hflagF, ?_, ?_⟩
+    · rw [heq]; subst hs2
+      rw [hsrv]; cases x.srv <;> simp [pnStore, PnTab.set, t2, hpc]
+    · rw [heq]; subst hs2
+      rw [hsrv]; cases x.srv <;> simp [pnStore, PnTab.set, t3, hps]
+
+/-- With application keys installed (`Rel1`), for EVERY sequence of 1-RTT packets an RFC-conformant pair of
+    endpoints can produce — any key-update history by either side, any interleaving of the directions, packet
+    numbers with any gaps truncated to any length the RFC window admits, any well-formed frame lists — no packet
+    raises, and the frames appended to `output_buffer` are exactly the senders' STREAM and CRYPTO frames, in capture
+    order, each with its packet's timestamp and direction. Composition of the epoch theorem, C16's window theorem,
+    the AEAD law and C17's `frames_roundtrip`. -/
+theorem one_rtt_exact (L : SealLaws P.prims) (sel : SuiteSel) (v : Version) (k0 : AppKeys)
+    (hq : TlsQuiet P .rtt1) (hn : TlsNoRaise P .rtt1) (hk : KeysWf P sel v k0)
+    (xs : List SPkt) (s : St σ) (gc gs lc ls : Nat) (hrel : Rel1 P sel v k0 s gc gs lc ls)
+    (hok : SendOk1 gc gs lc ls xs) :
+    (runPkts P s (xs.map (emit1 P L sel v k0))).out = s.out ++ xs.flatMap (expectedOf .rtt1) ∧
+    caughtList P s (xs.map (emit1 P L sel v k0)) = xs.map (fun _ => none) ∧
+    escapes P s (xs.map (emit1 P L sel v k0)) = none := by
+  induction xs generalizing s gc gs lc ls with
+  | nil => simp [runPkts, caughtList, escapes]
+  | cons x xs ih =>
+    obtain ⟨hlv, hlo, hhi, hpn, hwf, hrest⟩ := hok
+    obtain ⟨a1, a2, a3, a4⟩ := step_one_rtt P L sel v k0 hq hn hk x s gc gs lc ls hrel hlv hlo hhi hpn hwf
+    obtain ⟨i1, i2, i3⟩ := ih _ _ _ _ _ a4 hrest
+    simp only [List.map_cons, runPkts, caughtList, escapes, a1, a2, List.flatMap_cons]
+    exact ⟨by rw [i1, a3, List.append_assoc], by rw [i2], i3⟩
 
 end TLX.Props.C02Session
